@@ -41,9 +41,9 @@ func ruleF10BSI(p *Prog) *RuleResult {
 			}
 			// all uses of the parameter in f and in the function literals of f (captured through a cell)
 			type use struct {
-				ins   ssa.Instruction
-				fn    *ssa.Function
-				kills bool
+				ins     ssa.Instruction
+				fn      *ssa.Function
+				kills   bool
 				spawned bool // the parameter is handed to a go / defer statement
 			}
 			var uses []use
